@@ -25,7 +25,7 @@ theorem DedStruct.counted (h : DedStruct S T g fa r name d E vs) {tf : Field} (h
     | count cf =>
       simp only [hk, beq_iff_eq] at hkind hps
       subst hkind
-      obtain ⟨l, hvl, -, -, hc⟩ := hps
+      obtain ⟨l, hvl, -, -, hc, -⟩ := hps
       obtain ⟨n', hn', hlen, -⟩ := hc cf rfl
       rw [hn] at hn'
       simp only [Except.ok.injEq] at hn'
